@@ -5,4 +5,5 @@ pub mod textparse;
 pub mod neutral;
 pub mod pools;
 pub mod props;
+pub mod scenario;
 pub mod src;
